@@ -1,5 +1,5 @@
 /-
-The table *query* interfaces as they are after fixes/10 … fixes/20 (property C18): relocation
+The table *query* interfaces as they are after fixes/10 … 15, 17 … 21 (property C18): relocation
 `get_entry` without and with symbol resolution, symbol lookup by name (SysV / GNU hash walks + linear
 fallback) and by value, array / versym `get_entry`, version requirement / definition `get_entry`,
 `arrange_local_symbols` with the usual `swap_symbols` callback.
@@ -112,7 +112,7 @@ def relGetResolved := relGetResolvedWith tq_reloc_nosymtab
 /-! ### `set_entry` / `swap_symbols` (the callback of `arrange_local_symbols`) -/
 
 /-- `set_entry(index, offset, symbol, type, addend)` (C11's model: `generic_set_entry_*` with the two guards
-    of fixes/16); its Boolean result is not used by `swap_symbols` -/
+    of fixes/21); its Boolean result is not used by `swap_symbols` -/
 def relSet (enc : Enc) (b : SecBuf) (index : BitVec 64) (e : Reloc.Entry) : M SecBuf :=
   match Reloc.setEntry enc b index e with
   | .error f => .error f
